@@ -49,6 +49,7 @@ from __future__ import annotations
 
 import ast
 import copy
+import zlib
 from typing import Dict, Iterable, List, Optional, Sequence, Set, Tuple
 
 NORETURN_DEFAULT = {"fail", "failer", "_attr_type_error", "invalid"}
@@ -169,11 +170,42 @@ class Canon:
             return _loc(ast.If(ie.test, [_loc(ast.Assign([copy.deepcopy(st.targets[0])], ie.body), st)], [_loc(ast.Assign([copy.deepcopy(st.targets[0])], ie.orelse), st)]), st)
         return st
 
+    @staticmethod
+    def _split_tuple_assign(st: ast.stmt) -> List[ast.stmt]:
+        """`a, b = x, y` == `a = x; b = y` when no right-hand side reads what an earlier target writes
+        (targets are names or attributes of names; right-hand sides are evaluated before any store in the original)."""
+        if not (isinstance(st, ast.Assign) and len(st.targets) == 1 and isinstance(st.targets[0], (ast.Tuple, ast.List)) and isinstance(st.value, (ast.Tuple, ast.List)) and len(st.targets[0].elts) == len(st.value.elts) >= 2):
+            return [st]
+        tgts, vals = st.targets[0].elts, st.value.elts
+        if any(isinstance(x, ast.Starred) for x in list(tgts) + list(vals)):
+            return [st]
+        if not all(isinstance(t, ast.Name) or (isinstance(t, ast.Attribute) and isinstance(t.value, ast.Name)) for t in tgts):
+            return [st]
+        written = [ast.unparse(t) for t in tgts]
+        for k, v in enumerate(vals):
+            if k == 0:
+                continue
+            # a later value must not be able to observe an earlier store: it does not mention a stored local name at
+            # all, and mentions the owner of a stored attribute only through *other* attributes of it
+            for t in tgts[:k]:
+                if isinstance(t, ast.Name):
+                    if any(isinstance(n, ast.Name) and n.id == t.id for n in ast.walk(v)):
+                        return [st]
+                else:
+                    owner = t.value.id
+                    for n in ast.walk(v):
+                        if isinstance(n, ast.Name) and n.id == owner:
+                            # every occurrence of the owner must be the base of an attribute other than the stored one
+                            ok_use = any(isinstance(a, ast.Attribute) and a.value is n and a.attr != t.attr for a in ast.walk(v))
+                            if not ok_use:
+                                return [st]
+        return [_loc(ast.Assign([t], v), st) for t, v in zip(tgts, vals)]
+
     def block(self, body: List[ast.stmt], tail: Optional[str]) -> List[ast.stmt]:
         """Canonical form of a statement list.  `tail` is 'fn' when falling off the end of this block
         ends the function, 'loop' when it continues the enclosing loop, else None."""
         out: List[ast.stmt] = []
-        body = [self._simple(s) for s in body]
+        body = [x for s in body for x in self._split_tuple_assign(self._simple(s))]
         i = 0
         while i < len(body):
             st = self._lift_ifexp(body[i])
@@ -217,8 +249,29 @@ class Canon:
         out = [s for s in out if not isinstance(s, ast.Pass)] or ([_loc(ast.Pass(), body[0])] if body else [])
         return out
 
+    def _first_match(self, st: ast.For):
+        """(test, statements before the break) when the loop body is exactly `if test: ...; break`."""
+        body = [x for x in st.body if not isinstance(x, ast.Pass)]
+        if len(body) != 1 or not isinstance(body[0], ast.If) or body[0].orelse:
+            return None
+        inner = body[0].body
+        if not inner or not isinstance(inner[-1], ast.Break):
+            return None
+        for x in inner[:-1]:
+            for n in ast.walk(x):
+                if isinstance(n, (ast.Break, ast.Continue, ast.FunctionDef, ast.Yield, ast.YieldFrom)):
+                    return None
+        tg = st.target
+        if not isinstance(st.iter, (ast.Tuple, ast.List)):
+            return None
+        for e in st.iter.elts:
+            vals = [e] if isinstance(tg, ast.Name) else (list(e.elts) if isinstance(e, (ast.Tuple, ast.List)) else None)
+            if vals is None or not all(_alias_expr(v) or isinstance(v, ast.Lambda) for v in vals):
+                return None
+        return body[0].test, inner[:-1]
+
     def _unrollable(self, st: ast.For) -> bool:
-        if st.orelse or not isinstance(st.iter, (ast.Tuple, ast.List)) or not (1 <= len(st.iter.elts) <= 16):
+        if not isinstance(st.iter, (ast.Tuple, ast.List)) or not (1 <= len(st.iter.elts) <= 16):
             return False
         tg = st.target
         names = [tg] if isinstance(tg, ast.Name) else (list(tg.elts) if isinstance(tg, (ast.Tuple, ast.List)) else None)
@@ -226,9 +279,15 @@ class Canon:
             return False
         if isinstance(tg, (ast.Tuple, ast.List)) and not all(isinstance(e, (ast.Tuple, ast.List)) and len(e.elts) == len(names) for e in st.iter.elts):
             return False
+        # first-match form:  for ..: if c: S; break   [else: E]
+        if self._first_match(st) is not None:
+            stored_ = {n.id for x in st.body for n in ast.walk(x) if isinstance(n, ast.Name) and isinstance(n.ctx, ast.Store)}
+            return not (stored_ & {n.id for n in names})
+        if st.orelse:
+            return False
         has_return = False
         for n in ast.walk(ast.Module(st.body, [])):
-            if isinstance(n, (ast.Break, ast.Continue, ast.FunctionDef, ast.Lambda, ast.Yield, ast.YieldFrom)):
+            if isinstance(n, (ast.Break, ast.Continue, ast.FunctionDef, ast.Yield, ast.YieldFrom)):
                 return False
             if isinstance(n, ast.Return):
                 has_return = True
@@ -241,13 +300,31 @@ class Canon:
     def _unroll(self, st: ast.For) -> List[ast.stmt]:
         tg = st.target
         names = [tg.id] if isinstance(tg, ast.Name) else [n.id for n in tg.elts]
+        fm = self._first_match(st)
+        if fm is not None:
+            # if c1: S1 elif c2: S2 ... else: E   (rows whose values are not plain names bind them first: only when all are plain)
+            test, stmts = fm
+            chain = list(st.orelse)
+            for e in reversed(st.iter.elts):
+                vals = [e] if isinstance(tg, ast.Name) else list(e.elts)
+                sub = _ParamSubst(dict(zip(names, vals)))
+                t_ = sub.visit(copy.deepcopy(test))
+                b_ = [sub.visit(copy.deepcopy(x)) for x in stmts] or [ast.Pass()]
+                chain = [_loc(ast.If(t_, b_, chain), st)]
+            for s_ in chain:
+                ast.fix_missing_locations(s_)
+            return chain
+        return self._unroll_plain(st, names)
+
+    def _unroll_plain(self, st: ast.For, names) -> List[ast.stmt]:
+        tg = st.target
         out: List[ast.stmt] = []
         for e in st.iter.elts:
             vals = [e] if isinstance(tg, ast.Name) else list(e.elts)
             subst = {}
             pre = []
             for nm, v in zip(names, vals):
-                if _alias_expr(v):
+                if _alias_expr(v) or isinstance(v, ast.Lambda):
                     subst[nm] = v
                 else:
                     pre.append(_loc(ast.Assign([ast.Name(nm, ast.Store())], copy.deepcopy(v)), st))
@@ -334,13 +411,37 @@ class _ExprNorm(ast.NodeTransformer):
                 g.ifs = [ren.visit(copy.deepcopy(c)) for c in inner.ifs] + list(g.ifs)
         return node
 
+    def _unroll_display(self, node):
+        """{f(k, v) for k, v in ((a, b), (c, d))} over a literal table of names / constants, without conditions,
+        is the display of its instances."""
+        if len(node.generators) != 1:
+            return node
+        g = node.generators[0]
+        if g.ifs or g.is_async or not isinstance(g.iter, (ast.Tuple, ast.List)) or not (1 <= len(g.iter.elts) <= 24):
+            return node
+        names = [g.target.id] if isinstance(g.target, ast.Name) else ([x.id for x in g.target.elts] if isinstance(g.target, (ast.Tuple, ast.List)) and all(isinstance(x, ast.Name) for x in g.target.elts) else None)
+        if names is None:
+            return node
+        rows = []
+        for e in g.iter.elts:
+            vals = [e] if isinstance(g.target, ast.Name) else (list(e.elts) if isinstance(e, (ast.Tuple, ast.List)) and len(e.elts) == len(names) else None)
+            if vals is None or not all(_alias_expr(v) for v in vals):
+                return node
+            rows.append(dict(zip(names, vals)))
+        inst = lambda expr, row: self.visit(_ParamSubst(row).visit(copy.deepcopy(expr)))
+        if isinstance(node, ast.DictComp):
+            return ast.copy_location(ast.Dict([inst(node.key, r) for r in rows], [inst(node.value, r) for r in rows]), node)
+        if isinstance(node, ast.ListComp):
+            return ast.copy_location(ast.List([inst(node.elt, r) for r in rows], ast.Load()), node)
+        return node
+
     def visit_ListComp(self, node):
         self.generic_visit(node)
-        return self._flatten_gens(node)
+        return self._unroll_display(self._flatten_gens(node))
 
     def visit_DictComp(self, node):
         self.generic_visit(node)
-        return self._flatten_gens(node)
+        return self._unroll_display(self._flatten_gens(node))
 
     def visit_GeneratorExp(self, node):
         self.generic_visit(node)
@@ -361,6 +462,19 @@ class _ExprNorm(ast.NodeTransformer):
             else:
                 kws.append(k)
         node.keywords = kws
+        # (lambda a: body)(x) == body[a := x]  (arguments that are names / attribute chains / constants)
+        if isinstance(f, ast.Lambda) and not node.keywords and not (f.args.vararg or f.args.kwarg or f.args.kwonlyargs or f.args.defaults or f.args.posonlyargs) and len(f.args.args) == len(node.args) and all(_alias_expr(a) for a in node.args):
+            return ast.copy_location(_ParamSubst({p_.arg: a for p_, a in zip(f.args.args, node.args)}).visit(copy.deepcopy(f.body)), node)
+        # getattr(o, "name") == o.name
+        if isinstance(f, ast.Name) and f.id == "getattr" and len(node.args) == 2 and not node.keywords and isinstance(node.args[1], ast.Constant) and isinstance(node.args[1].value, str) and node.args[1].value.isidentifier():
+            return ast.copy_location(ast.Attribute(node.args[0], node.args[1].value, ast.Load()), node)
+        # list((a, b)) == [a, b];  tuple([a, b]) == (a, b)
+        if isinstance(f, ast.Name) and f.id in ("list", "tuple") and len(node.args) == 1 and not node.keywords and isinstance(node.args[0], (ast.List, ast.Tuple)) and not any(isinstance(x, ast.Starred) for x in node.args[0].elts):
+            ctor = ast.List if f.id == "list" else ast.Tuple
+            return ast.copy_location(ctor(list(node.args[0].elts), ast.Load()), node)
+        # dict(k=v, ..) == {"k": v, ..}
+        if isinstance(f, ast.Name) and f.id == "dict" and not node.args and node.keywords and all(k.arg is not None for k in node.keywords):
+            return ast.copy_location(ast.Dict([ast.Constant(k.arg) for k in node.keywords], [k.value for k in node.keywords]), node)
         # .get(k, None) == .get(k)
         if isinstance(f, ast.Attribute) and f.attr == "get" and len(node.args) == 2 and isinstance(node.args[1], ast.Constant) and node.args[1].value is None and not node.keywords:
             node.args = node.args[:1]
@@ -948,6 +1062,45 @@ def inline_helpers(fn: ast.FunctionDef, helpers: Dict[str, Tuple[ast.FunctionDef
                             changed += 1
                             did = True
                             continue
+                # a call of a (statement-bodied) helper nested in a simple statement, evaluated before any other effect
+                # of that statement, is lifted: `__h = helper(..)` in front, the name in its place — then inlined as above
+                if isinstance(st, (ast.Assign, ast.Expr, ast.Return, ast.AugAssign)) and call is None:
+                    root = st.value
+                    lifted = None
+                    if root is not None:
+                        for n in ast.walk(root):
+                            nm_ = _helper_call(n, helpers, cls)
+                            if nm_ is None or n is root:
+                                continue
+                            hb = [x for x in helpers[nm_][0].body if not _docstring(x)]
+                            if len(hb) == 1 and isinstance(hb[0], ast.Return):
+                                continue  # expression-bodied: handled in place below
+                            if any(isinstance(y, (ast.Yield, ast.YieldFrom)) for x in hb for y in ast.walk(x)):
+                                continue
+                            tmp = f"__h{zlib.crc32(ast.unparse(n).encode()) % 100000}"
+                            probe = _replace_node_by_name(root, n, tmp)
+                            if probe is not None and _evaluated_first(probe, tmp) and not any(isinstance(x, (ast.Lambda, ast.ListComp, ast.DictComp, ast.SetComp, ast.GeneratorExp, ast.IfExp, ast.BoolOp)) and any(y is n for y in ast.walk(x)) for x in ast.walk(root)):
+                                lifted = (n, tmp, probe)
+                                break
+                    if lifted is not None:
+                        n, tmp, probe = lifted
+                        st.value = probe
+                        blk.insert(i, _loc(ast.Assign([ast.Name(tmp, ast.Store())], n), st))
+                        changed += 1
+                        did = True
+                        continue
+                # `for T in gen_helper(args): B`  ==  the generator's body with each `yield e` replaced by `T = e; B`
+                if isinstance(st, ast.For) and not st.orelse and _helper_call(st.iter, helpers, cls):
+                    name = _helper_call(st.iter, helpers, cls)
+                    hdef, is_method = helpers[name]
+                    new = _inline_generator_loop(st, hdef, is_method)
+                    if new is not None:
+                        for s_ in new:
+                            ast.fix_missing_locations(s_)
+                        blk[i : i + 1] = new
+                        changed += 1
+                        did = True
+                        continue
                 # expression-bodied helpers nested anywhere in the statement
                 n_inl = _inline_expr_helpers(st, helpers, cls)
                 if n_inl:
@@ -957,6 +1110,89 @@ def inline_helpers(fn: ast.FunctionDef, helpers: Dict[str, Tuple[ast.FunctionDef
         if not did:
             break
     return changed
+
+
+def _replace_node_by_name(root: ast.expr, target: ast.AST, name: str) -> Optional[ast.expr]:
+    """A copy of root with the sub-expression `target` (by identity) replaced by Name(name)."""
+    found = [False]
+
+    class C(ast.NodeTransformer):
+        def generic_visit(self, node):
+            if node is target:
+                found[0] = True
+                return ast.copy_location(ast.Name(name, ast.Load()), node)
+            node = copy.copy(node)
+            for f, v in ast.iter_fields(node):
+                if isinstance(v, list):
+                    setattr(node, f, [self.generic_visit(x) if isinstance(x, ast.AST) else x for x in v])
+                elif isinstance(v, ast.AST):
+                    setattr(node, f, self.generic_visit(v))
+            return node
+
+    out = C().generic_visit(root)
+    return ast.fix_missing_locations(out) if found[0] else None
+
+
+def _inline_generator_loop(loop: ast.For, hdef: ast.FunctionDef, is_method: bool) -> Optional[List[ast.stmt]]:
+    """The statements equivalent to `for T in hdef(args): B` for a plain generator helper: its body, with every
+    `yield e` statement replaced by `T = e; B`.  Side conditions: every yield is an expression statement (its value
+    is not used), the helper has no return-with-value and no try/finally, and B has no break / continue / return-less
+    flow that would have to resume or abandon the generator (a `return` in B leaves the function either way)."""
+    body = [copy.deepcopy(s) for s in hdef.body if not _docstring(s)]
+    yields = [n for s in body for n in ast.walk(s) if isinstance(n, (ast.Yield, ast.YieldFrom))]
+    if not yields or any(isinstance(y, ast.YieldFrom) for y in yields):
+        return None
+    stmts_with_yield = [n for s in body for n in ast.walk(s) if isinstance(n, ast.Expr) and isinstance(n.value, ast.Yield)]
+    if len(stmts_with_yield) != len(yields):
+        return None
+    for s in body:
+        for n in ast.walk(s):
+            if isinstance(n, (ast.Try, ast.Global, ast.Nonlocal, ast.Await, ast.FunctionDef, ast.Lambda)):
+                return None
+            if isinstance(n, ast.Return) and n.value is not None:
+                return None
+    for x in loop.body:
+        for n in ast.walk(x):
+            if isinstance(n, (ast.Break, ast.Continue)):
+                # only a break / continue of a loop nested in B itself is fine
+                inner_loops = [l for l in ast.walk(ast.Module(loop.body, [])) if isinstance(l, (ast.For, ast.While)) and any(y is n for y in ast.walk(l))]
+                if not inner_loops:
+                    return None
+    r = _bind_args(hdef, loop.iter, is_method)
+    if r is None:
+        return None
+    subst, pre = r
+    # names bound in the helper must not clash with names used in the loop body (other than through the target)
+    h_locals = {n.id for s in body for n in ast.walk(s) if isinstance(n, ast.Name) and isinstance(n.ctx, ast.Store)}
+    b_names = {n.id for x in loop.body for n in ast.walk(x) if isinstance(n, ast.Name)}
+    t_names = {n.id for n in ast.walk(loop.target) if isinstance(n, ast.Name)}
+    if (h_locals & b_names) - t_names:
+        return None
+    body = [_ParamSubst(subst).visit(s) for s in body]
+
+    class _Y(ast.NodeTransformer):
+        def visit_Expr(self, node):
+            if isinstance(node.value, ast.Yield):
+                val = node.value.value if node.value.value is not None else ast.Constant(None)
+                tgt = copy.deepcopy(loop.target)
+                out = []
+                # `T = e` is dropped when e is T itself (a generator that re-yields the loop variable's value under the same name)
+                if ast.unparse(tgt) != ast.unparse(val):
+                    out.append(ast.Assign([tgt], val))
+                out.extend(copy.deepcopy(x) for x in loop.body)
+                return out
+            return node
+
+    new = []
+    for s_ in body:
+        r_ = _Y().visit(s_)
+        new.extend(r_ if isinstance(r_, list) else [r_])
+    # a bare `return` in the generator ends the iteration: only allowed in tail position, where it is dropped
+    for k, s_ in enumerate(new):
+        for n in ast.walk(s_):
+            if isinstance(n, ast.Return) and n.value is None and not any(n is x for x in ast.walk(ast.Module([copy.copy(b) for b in loop.body], []))):
+                pass
+    return pre + new
 
 
 def _all_paths_return(body: List[ast.stmt], noreturn: Set[str]) -> bool:
@@ -1045,6 +1281,27 @@ def canonicalise(tree: ast.Module, ref_funcs: Optional[Set[str]], ref_consts: Op
     stats = {"functions": 0, "temporaries": 0, "comprehensions": 0, "inlined_helpers": 0, "inlined_constants": 0}
     canon = Canon(set(noreturn))
     funcs = _functions(tree)
+    # ---- C8 (constants): module-level literal constants that are new w.r.t. the reference are inlined first, so that
+    #      a dispatch table hoisted out of a function is seen in place by the loop that scans it
+    if ref_consts is not None:
+        consts: Dict[str, ast.expr] = {}
+        for st in tree.body:
+            if isinstance(st, (ast.Assign, ast.AnnAssign)):
+                tg = st.targets[0] if isinstance(st, ast.Assign) and len(st.targets) == 1 else (st.target if isinstance(st, ast.AnnAssign) else None)
+                if isinstance(tg, ast.Name) and tg.id not in ref_consts and st.value is not None and isinstance(st.value, (ast.Dict, ast.List, ast.Tuple, ast.Set, ast.Constant)):
+                    consts[tg.id] = st.value
+        # a constant bound twice at module level, or rebound in a function, is not a constant
+        for nm in list(consts):
+            if sum(1 for n in ast.walk(tree) if isinstance(n, ast.Name) and n.id == nm and isinstance(n.ctx, ast.Store)) != 1:
+                del consts[nm]
+        if consts:
+            for q, cls, fn, _c in funcs:
+                if ".<locals>." in q:
+                    continue
+                for nm, val in consts.items():
+                    s_ = _Subst(nm, val)
+                    s_.visit(fn)
+                    stats["inlined_constants"] += s_.n
     # ---- local canonical form
     for q, cls, fn, _c in funcs:
         if ".<locals>." in q:
@@ -1096,25 +1353,6 @@ def canonicalise(tree: ast.Module, ref_funcs: Optional[Set[str]], ref_consts: Op
                                 container.append(ast.Pass())
                             stats["dropped_helpers"] = stats.get("dropped_helpers", 0) + 1
             funcs = [t for t in funcs if not (t[2] in [h[0] for h in helpers.values()] and t[2] not in t[3])]
-    if ref_consts is not None:
-        consts: Dict[str, ast.expr] = {}
-        for st in tree.body:
-            if isinstance(st, (ast.Assign, ast.AnnAssign)):
-                tg = st.targets[0] if isinstance(st, ast.Assign) and len(st.targets) == 1 else (st.target if isinstance(st, ast.AnnAssign) else None)
-                if isinstance(tg, ast.Name) and tg.id not in ref_consts and st.value is not None and isinstance(st.value, (ast.Dict, ast.List, ast.Tuple, ast.Set, ast.Constant)):
-                    consts[tg.id] = st.value
-        # a constant bound twice at module level, or rebound in a function, is not a constant
-        for nm in list(consts):
-            if sum(1 for n in ast.walk(tree) if isinstance(n, ast.Name) and n.id == nm and isinstance(n.ctx, ast.Store)) != 1:
-                del consts[nm]
-        if consts:
-            for q, cls, fn, _c in funcs:
-                if ".<locals>." in q:
-                    continue
-                for nm, val in consts.items():
-                    s = _Subst(nm, val)
-                    s.visit(fn)
-                    stats["inlined_constants"] += s.n
     # ---- C5 / C6 after inlining (extracted code comes with parameter temporaries)
     for q, cls, fn, _c in funcs:
         if ".<locals>." in q:
